@@ -83,7 +83,7 @@ def oracle(ctx, st, ob):
             if it is not None:
                 a1, a2 = atoms[i], atoms[j]
                 p1, p2 = a1.part.n, a2.part.n
-                allowed = (p1 == p2) or ((p1 == 0 or p2 == 0) and not (a1.ishydrogen or a2.ishydrogen))
+                allowed = (p1 == p2) or ((p1 == 0 or p2 == 0) and not (sc.is_h(a1) or sc.is_h(a2)))       # hydrogen = H, D or T by element symbol
                 lim = 1.2 * (gs.radius(a1.element) + gs.radius(a2.element))       # by element symbol from the table, not through the atom object
                 want = allowed and it[0] < lim
                 if abs(it[0] - lim) > 1e-6 and bool(it[2]) != want:
